@@ -1,7 +1,7 @@
 """Driver configuration and manifest text for C13 (see DESIGN.md)."""
 
 CHECK = {'pkg': '.',
- 'parts': [{'name': 'chains', 'test': 'TestVF_C13', 'shrinktime': '2s', 'quick': {'shards': 4, 'checks': 5000}, 'thorough': {'shards': 16, 'checks': 150000}},
+ 'parts': [{'name': 'chains', 'test': 'TestVF_C13', 'shrinktime': '2s', 'quick': {'shards': 8, 'checks': 12000}, 'thorough': {'shards': 16, 'checks': 150000}},
            {'name': 'exhaustive',
             'test': 'TestVF_C13_Exhaustive',
             'own_loop': True,
